@@ -117,3 +117,8 @@ def cases(tier, seed, ctx=None):
     for n in (1, 2, 3):
         for after in (0, 1):
             yield ("tls", [4, n, after], "tls-destroyed-mid-handshake")
+    # TLS clients that a restrictive configuration turns away (no client certificate where one is demanded, an older protocol where
+    # TLS 1.3 is demanded): whatever the handshake does, the connection's objects are gone afterwards
+    for cfg in (4, 5):
+        for rq in (b"GET / HTTP/1.1\r\nHost: h\r\n\r\n", b""):
+            yield ("tls", [5, cfg, rq], "tls-unwelcome-client-released")
